@@ -455,7 +455,14 @@ where
             let Some(info) = user_info.get(&(user_id as u64)) else {
                 return;
             };
-            v.decor_mut().set_suffix(format!(" # {}", info));
+            // The comment must stay on its line: control characters (a newline
+            // in particular) in a publisher's name would otherwise escape it.
+            let comment: String = info
+                .to_string()
+                .chars()
+                .map(|c| if c.is_control() { ' ' } else { c })
+                .collect();
+            v.decor_mut().set_suffix(format!(" # {comment}"));
         }
     }
     impl VisitMut for TomlFormatter<'_> {
